@@ -107,6 +107,8 @@ func pkEnc(pk crypto.PublicKey, err error) string {
 	return "ok " + hx(pk.Encode())
 }
 
+var idKeysC04 []crypto.PublicKey
+
 func genC04(c *Ctx) {
 	n := 60
 	if c.thorough() {
@@ -294,6 +296,42 @@ func genC04(c *Ctx) {
 					return "err"
 				}
 				return pkEnc(crypto.RemoveBLSPublicKeys(all, pks[cut:]))
+			}))
+		}
+		// identity keys inside the lists (documented as valid inputs): in the list to remove and in the list to aggregate,
+		// at the first, a middle and the last place, after a longer unrelated aggregation and removal (what a pooled or
+		// reused array still holds from the call before must not be read)
+		if cut > 0 && it%2 == 0 {
+			if idKeysC04 == nil {
+				idKeysC04 = c.identityKeys()
+			}
+			withIds := func(base []crypto.PublicKey) []crypto.PublicKey {
+				out := append([]crypto.PublicKey{}, base...)
+				for k := 0; k < 1+c.intn(3); k++ {
+					pos := []int{0, len(out) / 2, len(out)}[c.intn(3)]
+					id := idKeysC04[c.intn(len(idKeysC04))]
+					out = append(out[:pos], append([]crypto.PublicKey{id}, out[pos:]...)...)
+				}
+				return out
+			}
+			rem, aggl := withIds(pks[cut:]), withIds(ppks)
+			var junk []crypto.PublicKey
+			for k := 0; k < 2*size+6; k++ {
+				junk = append(junk, skFromInt(c.randScalar()).PublicKey())
+			}
+			c.Case("remove-with-identity", "agg.pk "+scalarsLine(ks[:cut]), guard(func() string {
+				all, err := crypto.AggregateBLSPublicKeys(ppks)
+				if err != nil {
+					return "err"
+				}
+				if ja, err := crypto.AggregateBLSPublicKeys(junk); err == nil {
+					_, _ = crypto.RemoveBLSPublicKeys(ja, junk[1:])
+				}
+				return pkEnc(crypto.RemoveBLSPublicKeys(all, rem))
+			}))
+			c.Case("agg-pk-with-identity", "agg.pk "+scalarsLine(ks), guard(func() string {
+				_, _ = crypto.AggregateBLSPublicKeys(junk)
+				return pkEnc(crypto.AggregateBLSPublicKeys(aggl))
 			}))
 		}
 		// operation results fed back as inputs: removal one key at a time (each result is the next aggKey), then
